@@ -27,3 +27,9 @@ DESTROYS_T_REQUIRED = [
     "<CircularBuffer<N, T> as From<[T; M]>>::from",
     "<Drain<N, T> as Drop>::drop",
 ]
+
+# functions that disarm a destructor: (max number of sites, reason)
+FORGET_SITES = {
+    "CircularBuffer::extend_from_slice::write_uninit_slice_cloned": (1, "forgets the Guard after all clones succeeded (GUARD1)"),
+    "<CircularBuffer<N, T> as From<[T; M]>>::from": (1, "ManuallyDrop around the source array whose elements are moved/destroyed by hand (FROMARR1, PS2)"),
+}
